@@ -23,6 +23,7 @@ pub open spec fn is_append_only(repo: &VRepo) -> bool { repo.cfg.append_only == 
 // one of them fails the stub's precondition.
 pub trait DecryptWriteBackend {}
 pub trait DecryptFullBackend: DecryptWriteBackend {}
+#[derive(Clone, Copy)]
 pub struct TreeId { pub _opaque: u64 }
 pub struct BlobId { pub _opaque: u64 }
 pub struct Tree { pub _opaque: u64 }
